@@ -5,9 +5,9 @@
    separately, blocking-style and poll-style, all base capacities / limits of the tier): FIFO /
    exactly-once on both halves (also after a failed flush + retry), limits, the structural
    assertions of the code, the wake-up cover invariant; liveness (every parked entry point is
-   eventually woken) on the fair spec; two model-level controls (strict read limit must fail = the
-   recorded deviation is real in the model; a variant waking only one waker slot must violate the
-   wake property).
+   eventually woken) on the fair spec; two model-level controls (the read side as it was before
+   the repair a1c242c, OldReadLimit = TRUE, must violate the read limit; a variant waking only one
+   waker slot must violate the wake property).
 2. Gen_CompatStream prints behaviours: a path to every reachable (model state, incoming call) pair of the
    bounded model (VIEW trick, any depth) and every call sequence of a fixed length for the blocking-style
    adapter; thorough adds longer exhaustive sequences and seeded random walks.
@@ -253,8 +253,8 @@ def run(run, tier, replay):
             if live and "temporal properties" not in r.out.lower():
                 raise vlib.ToolError("%s: TLC did not check the temporal property" % label)
             run.add_model(label, r)
-        # model-level controls (one run, -continue): the strict read limit must fail (= the recorded
-        # deviation is real in the model) and a variant that wakes only one waker slot must violate Woken
+        # model-level controls (one run, -continue): with the pre-repair read side (OldReadLimit = TRUE) the read
+        # limit must fail, and a variant that wakes only one waker slot must violate Woken
         r = ctl.result()
         _t(run, "controls done (%.0fs)" % r.wall)
         if "Invariant ReadLimitStrict is violated" not in r.out:
